@@ -131,10 +131,21 @@ Ready(c, bound, V, ctx) ==
                         LET own == {c.args[i].e.name : i \in {j \in 1..Len(c.args) :
                                                                BareUnbound(c.args[j].e, bound)}}
                             inl == ctx.preds[c.p].inline
-                            gnd == {c.args[i].f : i \in {j \in 1..Len(c.args) :
+                            gnd0 == {c.args[i].f : i \in {j \in 1..Len(c.args) :
                                       ~BareUnbound(c.args[j].e, bound)
                                       /\ Ground(c.args[j].e, bound, V)}}
                             fs == {c.args[i].f : i \in 1..Len(c.args)}
+                            \* P(x, x): a variable that one argument of the call
+                            \* outputs may serve as the value of another argument
+                            outv == IF inl
+                                    THEN {c.args[i].e.name : i \in {j \in 1..Len(c.args) :
+                                            BareUnbound(c.args[j].e, bound)
+                                            /\ CallOK(ctx.preds[c.p].rules[1], gnd0, {c.args[j].f})}}
+                                    ELSE {}
+                            gnd == gnd0 \cup {c.args[i].f : i \in {j \in 1..Len(c.args) :
+                                      BareUnbound(c.args[j].e, bound)
+                                      /\ c.args[j].e.name \in outv
+                                      /\ ~CallOK(ctx.preds[c.p].rules[1], gnd0, {c.args[j].f})}}
                         IN /\ inl => CallOK(ctx.preds[c.p].rules[1], gnd, fs)
                            /\ \A i \in 1..Len(c.args) :
                                 BareUnbound(c.args[i].e, bound)
